@@ -52,6 +52,21 @@ Theorem C01_no_blocked_sender : forall (V : Type) (ce : ekind) (n : nat)
 Proof. exact no_blocked_sender_pm. Qed.
 Print Assumptions C01_no_blocked_sender.
 
+(* A cancellation of the caller / an expiry of the deadline (LTimeout) that happens once
+   every goroutine has delivered its message cannot influence the response: whatever the
+   rest of the schedule, the same schedule without those events runs too, dequeues the same
+   messages in the same order and returns the same (response, error).  In particular the
+   completeness flag depends on what the backends did, never on the state of the context
+   at the end of the collection. *)
+Theorem C01_timeout_after_sends_irrelevant : forall (V : Type) (ce : ekind) (n : nat)
+    (s : st (msg V)) (ls : list (label (msg V))) (s' : st (msg V)),
+  all_sent V s -> pm_run V ce n s ls = Some s' ->
+  exists s'', pm_run V ce n s (filter (not_timeout V) ls) = Some s'' /\
+    got _ s'' = got _ s' /\ ws _ s'' = ws _ s' /\ fin _ s'' = fin _ s' /\
+    pm_result V s'' = pm_result V s'.
+Proof. exact timeout_after_sends_irrelevant. Qed.
+Print Assumptions C01_timeout_after_sends_irrelevant.
+
 (* ... which a smaller capacity would not guarantee *)
 Theorem C01_smaller_capacity_blocks : forall (V : Type) (ce e1 e2 : ekind),
   exists sched s,
@@ -155,3 +170,18 @@ Example C01_ex_error_with_response :
   = (Some {| data := Some [("b", JNum "1")]; complete := false |}, Some [EBackend "boom"]) /\
   spec_b json_eqb outs (merge_run 2 (map msg_of outs)) = true.
 Proof. split; vm_compute; reflexivity. Qed.
+
+(* the deadline fires after both backends have sent, before the last receive: complete *)
+Example C01_ex_late_timeout :
+  exists s0 s,
+    pm_run json EDeadline 2 (init _ 2)
+      [LReturn 0 (P true (Some [("a", JNum "1")])); LReturn 1 (P true (Some [("b", JNum "2")]));
+       LSend 0; LSend 1; LRecv ChP] = Some s0 /\
+    all_sent json s0 /\
+    pm_run json EDeadline 2 s0 [LTimeout; LRecv ChP; LFinish] = Some s /\
+    fin _ s = true /\
+    pm_result json s = (Some {| data := Some [("b", JNum "2"); ("a", JNum "1")]; complete := true |}, None).
+Proof.
+  eexists. eexists. split; [vm_compute; reflexivity|]. split; [vm_compute; reflexivity|].
+  split; [vm_compute; reflexivity|]. split; vm_compute; reflexivity.
+Qed.
